@@ -6,6 +6,27 @@ Import ListNotations.
 Open Scope Z_scope.
 
 (** ** 1. pending updates and rollbacks are invisible at committed roots *)
+
+Lemma load_x_same : forall s s' r,
+  s_db s' = s_db s -> s_roots s' = s_roots s -> s_pfx s' = s_pfx s -> load_x s' r = load_x s r.
+Proof.
+  intros s s' r D R P. unfold load_x, is_root. rewrite D, R, P. reflexivity.
+Qed.
+
+(** table-only operations (and a restart) neither add nor remove a resolvable root *)
+Theorem table_only_frame : forall s ops r o,
+  inv s -> forallb table_only ops = true ->
+  (committed (run s ops) r o <-> committed s r o) /\
+  (committed (restart (run s ops)) r o <-> committed s r o).
+Proof.
+  intros s ops r o I H. destruct (table_only_run_db ops s H) as [D R].
+  destruct (run_inv_grows ops s I) as [_ [_ [_ P]]].
+  assert (E : load_x (run s ops) r = load_x s r) by (apply load_x_same; auto).
+  unfold committed. split.
+  - rewrite E. tauto.
+  - change (load_x (restart (run s ops)) r) with (load_x (run s ops) r). rewrite E. tauto.
+Qed.
+
 Theorem pending_invisible : forall s r o ops,
   inv s -> committed s r o -> forallb table_only ops = true ->
   s_db (run s ops) = s_db s /\
